@@ -154,13 +154,13 @@ pub(crate) fn any_refid_request() -> v5::extension_fields::ReferenceIdRequest {
 // harness-chosen results. It models *an arbitrary AEAD implementation's interface behaviour*
 // (any nonce length accepted, decrypt either fails or returns some plaintext); that a tampered
 // input makes the real AES-SIV fail is assumption A3 (ideal AEAD), not modelled here.
-pub(crate) static DEC_CALLS: AtomicU8 = AtomicU8::new(0);
-pub(crate) static DEC_NONCE: (AtomicUsize, AtomicUsize) = (AtomicUsize::new(0), AtomicUsize::new(0));
-pub(crate) static DEC_CT: (AtomicUsize, AtomicUsize) = (AtomicUsize::new(0), AtomicUsize::new(0));
-pub(crate) static DEC_AAD: (AtomicUsize, AtomicUsize) = (AtomicUsize::new(0), AtomicUsize::new(0));
-pub(crate) static ENC_CALLS: AtomicU8 = AtomicU8::new(0);
-pub(crate) static ENC_AAD: (AtomicUsize, AtomicUsize) = (AtomicUsize::new(0), AtomicUsize::new(0));
-pub(crate) static ENC_PT_LEN: AtomicUsize = AtomicUsize::new(0);
+pub(crate) static DEC_CALLS: crate::verif_common::Ghost<AtomicU8> = crate::verif_common::Ghost::new(0x675a6e46d34a6a2f, AtomicU8::new(0));
+pub(crate) static DEC_NONCE: crate::verif_common::Ghost<(AtomicUsize, AtomicUsize)> = crate::verif_common::Ghost::new(0x67843f4a7249bf0c, (AtomicUsize::new(0), AtomicUsize::new(0)));
+pub(crate) static DEC_CT: crate::verif_common::Ghost<(AtomicUsize, AtomicUsize)> = crate::verif_common::Ghost::new(0x67253e92c210751d, (AtomicUsize::new(0), AtomicUsize::new(0)));
+pub(crate) static DEC_AAD: crate::verif_common::Ghost<(AtomicUsize, AtomicUsize)> = crate::verif_common::Ghost::new(0x679986682162e36c, (AtomicUsize::new(0), AtomicUsize::new(0)));
+pub(crate) static ENC_CALLS: crate::verif_common::Ghost<AtomicU8> = crate::verif_common::Ghost::new(0x67b4a28598a7149b, AtomicU8::new(0));
+pub(crate) static ENC_AAD: crate::verif_common::Ghost<(AtomicUsize, AtomicUsize)> = crate::verif_common::Ghost::new(0x67829164fde91ea9, (AtomicUsize::new(0), AtomicUsize::new(0)));
+pub(crate) static ENC_PT_LEN: crate::verif_common::Ghost<AtomicUsize> = crate::verif_common::Ghost::new(0x6725b32873568803, AtomicUsize::new(0));
 
 pub(crate) struct ModelCipher {
     /// decrypt: succeed?
@@ -223,7 +223,7 @@ pub(crate) fn any_model_cipher() -> ModelCipher {
 // latter makes the Kani compiler ICE as soon as it is reachable). Stub: the cookie is an arbitrary
 // value chosen by the harness (any value the RNG could return). Needed by every harness from which
 // an NTPv5 builder is reachable by type, even when the NTPv5 arm is not taken.
-pub(crate) static SERVER_COOKIE: AtomicU64 = AtomicU64::new(0);
+pub(crate) static SERVER_COOKIE: crate::verif_common::Ghost<AtomicU64> = crate::verif_common::Ghost::new(0x67d3e36ede2bee74, AtomicU64::new(0));
 pub(crate) fn server_cookie_stub() -> v5::NtpServerCookie {
     v5::NtpServerCookie(SERVER_COOKIE.load(Relaxed).to_be_bytes())
 }
@@ -269,7 +269,7 @@ pub(crate) fn raw(d: NtpDuration) -> i64 {
 // statement; callers here are checked against "some duration that depends only on the snapshot
 // and the reception time" (uninterpreted value fixed per harness). Its own behaviour (including
 // the debug_assert on a NaN variance inside NtpDuration::from_seconds) belongs to C22/C06.
-static RD: std::sync::atomic::AtomicI64 = std::sync::atomic::AtomicI64::new(0);
+static RD: crate::verif_common::Ghost<std::sync::atomic::AtomicI64> = crate::verif_common::Ghost::new(0x67c4a8a3a1c1dd84, std::sync::atomic::AtomicI64::new(0));
 pub(crate) fn root_dispersion_uf(_s: &TimeSnapshot, _now: NtpTimestamp) -> NtpDuration {
     NtpDuration::from_bits(RD.load(Relaxed).to_be_bytes())
 }
@@ -812,8 +812,8 @@ fn c17_tb_v4_time_response_fits_rfc7822_request() {
 // contract: it returns some byte string whose length is fixed for the harness (a fresh cookie's
 // size depends only on the algorithm's key sizes) and counts its calls. Its own contract
 // (fresh cookie decodes to the same keys) is C26's.
-pub(crate) static COOKIE_CALLS: AtomicU8 = AtomicU8::new(0);
-pub(crate) static COOKIE_LEN: AtomicUsize = AtomicUsize::new(0);
+pub(crate) static COOKIE_CALLS: crate::verif_common::Ghost<AtomicU8> = crate::verif_common::Ghost::new(0x6760a27d53d9dc42, AtomicU8::new(0));
+pub(crate) static COOKIE_LEN: crate::verif_common::Ghost<AtomicUsize> = crate::verif_common::Ghost::new(0x676661f2229cdca0, AtomicUsize::new(0));
 pub(crate) fn encode_cookie_stub(_ks: &KeySet, _c: &DecodedServerCookie) -> Vec<u8> {
     COOKIE_CALLS.store(COOKIE_CALLS.load(Relaxed).saturating_add(1), Relaxed);
     let mut v = Vec::new();
